@@ -280,3 +280,78 @@ extern "C" void harness_offsetpoint() {
   }
   verif_reach();
 }
+
+// ---- C07: OffsetOpenPath / OffsetOpenJoined walk both sides of an open path and cap its ends as the end type says ----------------
+// The join/cap workers and OffsetPoint are recorders; the path has 4 concrete vertices, its normals are arbitrary finite doubles.
+// Expected event sequence for OffsetOpenPath: start cap at vertex 0, left side forward (OffsetPoint j=1,2 with k=j-1), the normals are
+// reversed, end cap at vertex 3, right side backward (OffsetPoint j=2,1 with k=j+1); Butt = bevel cap, Round = half-circle (angle pi),
+// Square = square cap; exactly one output path is appended to the solution.
+struct Ev { int kind; size_t j, k; double a; };      // kind: 2 square, 3 round, 4 bevel, 5 OffsetPoint
+static Ev EV[8]; static int NEV; static PointD g_norm_at_endcap[4];
+static void ev(ClipperOffset* s, int kind, size_t j, size_t k, double a) {
+  if (NEV < 8) { EV[NEV].kind = kind; EV[NEV].j = j; EV[NEV].k = k; EV[NEV].a = a; }
+  if (NEV == 3) for (int i = 0; i < 4; ++i) g_norm_at_endcap[i] = s->norms[i];      // the 4th event is the end cap
+  NEV++;
+}
+extern "C" __attribute__((noinline)) void stub_ev_square(ClipperOffset* s, const Path64& p, size_t j, size_t k) { ev(s, 2, j, k, 0.0); }
+extern "C" __attribute__((noinline)) void stub_ev_round(ClipperOffset* s, const Path64& p, size_t j, size_t k, double angle) { ev(s, 3, j, k, angle); }
+extern "C" __attribute__((noinline)) void stub_ev_bevel(ClipperOffset* s, const Path64& p, size_t j, size_t k) { ev(s, 4, j, k, 0.0); }
+extern "C" __attribute__((noinline)) void stub_ev_offsetpoint(ClipperOffset* s, ClipperOffset::Group& g, const Path64& p, size_t j, size_t k) { ev(s, 5, j, k, 0.0); }
+extern "C" void harness_offsetopenpath() {
+  ClipperOffset& co = *new ClipperOffset(2.0, 0.0);
+  Paths64 sol; sol.reserve(4); co.solution = &sol;
+  Path64 path; path.reserve(4);
+  path.push_back(Point64((int64_t)0, (int64_t)0)); path.push_back(Point64((int64_t)100, (int64_t)0)); path.push_back(Point64((int64_t)100, (int64_t)100)); path.push_back(Point64((int64_t)200, (int64_t)100));
+  PointD n0[4];
+  for (int i = 0; i < 4; ++i) { n0[i] = PointD(nd_in(-1.0, 1.0), nd_in(-1.0, 1.0)); co.norms.push_back(n0[i]); }
+  double delta = nondet_double(); ASSUME(delta >= 0.5 && delta <= 1e6);      // open paths are offset with |delta| (C07.bcd)
+  co.group_delta_ = delta;
+  EndType et = (EndType)nd_int(2, 4);                                           // Butt, Square, Round
+  co.end_type_ = et; co.join_type_ = (JoinType)nd_int(0, 3);
+  ClipperOffset::Group& g = *new ClipperOffset::Group(Paths64(1, path), co.join_type_, et);
+  NEV = 0;
+  co.OffsetOpenPath(g, path);
+  VA(NEV == 6);
+  int cap = et == EndType::Butt ? 4 : et == EndType::Round ? 3 : 2;
+  VA(EV[0].kind == cap && EV[0].j == 0 && EV[0].k == 0);
+  VA(EV[1].kind == 5 && EV[1].j == 1 && EV[1].k == 0 && EV[2].kind == 5 && EV[2].j == 2 && EV[2].k == 1);
+  VA(EV[3].kind == cap && EV[3].j == 3 && EV[3].k == 3);
+  VA(EV[4].kind == 5 && EV[4].j == 2 && EV[4].k == 3 && EV[5].kind == 5 && EV[5].j == 1 && EV[5].k == 2);
+  if (cap == 3) VA(EV[0].a > 3.14159265 && EV[0].a < 3.14159266 && same_double(EV[0].a, EV[3].a));     // half circles
+  // the far side is walked with reversed normals: norms[i] = -n0[i-1] (i = 3..1), norms[0] = norms[3]
+  for (int i = 1; i < 4; ++i) VA(same_double(g_norm_at_endcap[i].x, -n0[i - 1].x) && same_double(g_norm_at_endcap[i].y, -n0[i - 1].y));
+  VA(same_double(g_norm_at_endcap[0].x, -n0[2].x) && same_double(g_norm_at_endcap[0].y, -n0[2].y));
+  VA(sol.size() == 1);
+  verif_reach();
+}
+
+// C07 (Joined end type) / C06: OffsetOpenJoined offsets the path as a polygon, then the reversed path with the normals rebuilt for the
+// other side (reversed, rotated by one, negated); OffsetPolygon visits every vertex once with its cyclic predecessor.
+struct JEv { size_t j, k; int64_t first_x; };
+static JEv JEV[8]; static int NJEV; static PointD g_norm_second[3];
+extern "C" __attribute__((noinline)) void stub_jev_offsetpoint(ClipperOffset* s, ClipperOffset::Group& g, const Path64& p, size_t j, size_t k) {
+  if (NJEV < 8) { JEV[NJEV].j = j; JEV[NJEV].k = k; JEV[NJEV].first_x = p[0].x; }
+  if (NJEV == 3) for (int i = 0; i < 3; ++i) g_norm_second[i] = s->norms[i];
+  NJEV++;
+}
+extern "C" void harness_offsetopenjoined() {
+  ClipperOffset& co = *new ClipperOffset(2.0, 0.0);
+  Paths64 sol; sol.reserve(4); co.solution = &sol;
+  Path64 path; path.reserve(4);
+  path.push_back(Point64((int64_t)7, (int64_t)0)); path.push_back(Point64((int64_t)100, (int64_t)0)); path.push_back(Point64((int64_t)150, (int64_t)100));
+  PointD n0[3]; co.norms.reserve(8);
+  for (int i = 0; i < 3; ++i) { n0[i] = PointD(nd_in(-1.0, 1.0), nd_in(-1.0, 1.0)); co.norms.push_back(n0[i]); }
+  co.group_delta_ = nd_in(0.5, 1e6); co.end_type_ = EndType::Joined; co.join_type_ = (JoinType)nd_int(0, 3);
+  ClipperOffset::Group& g = *new ClipperOffset::Group(Paths64(1, path), co.join_type_, EndType::Joined);
+  NJEV = 0;
+  co.OffsetOpenJoined(g, path);
+  VA(NJEV == 6 && sol.size() == 2);
+  for (int r = 0; r < 2; ++r) {
+    VA(JEV[3 * r].j == 0 && JEV[3 * r].k == 2 && JEV[3 * r + 1].j == 1 && JEV[3 * r + 1].k == 0 && JEV[3 * r + 2].j == 2 && JEV[3 * r + 2].k == 1);
+    for (int i = 0; i < 3; ++i) VA(JEV[3 * r + i].first_x == (r == 0 ? 7 : 150));          // second round: the reversed path
+  }
+  VA(co.norms.size() == 3);
+  const PointD exp[3] = {PointD(-n0[1].x, -n0[1].y), PointD(-n0[0].x, -n0[0].y), PointD(-n0[2].x, -n0[2].y)};
+  for (int i = 0; i < 3; ++i) VA(same_double(g_norm_second[i].x, exp[i].x) && same_double(g_norm_second[i].y, exp[i].y));
+  verif_reach();
+}
